@@ -121,6 +121,8 @@ def judge(ctx, tag, args, L, skip_cols=()):
 
 def make_table(rng, structured):
     nr = int(rng.integers(2, 13))
+    if rng.random() < 0.25:
+        nr = int(rng.integers(17, 61))  # as many pole slots as a high-order SSI / several-channel pLSCF table
     no = int(rng.integers(2, 41))
     nch = int(rng.integers(2, 7))
     base = np.sort(rng.uniform(1, 50, nr))
